@@ -211,6 +211,41 @@ func init() {
 		return rep
 	}})
 
+	// a long-lived stream: `pairs` pairs of frames, each pair arriving swapped (1,0,3,2,...), read after
+	// every pair - never more than one small frame is parked, for millions of frames
+	vx.Register(&vx.Scenario{Name: "sbuf.long", Prop: "C02", Run: func(c *vx.Ctx) *vx.Report {
+		rep := &vx.Report{Job: c.Job, Engine: "enum", Outcomes: map[string]int64{}, Exhaustive: true}
+		pairs := c.PI("pairs", 1500000)
+		sb := NewStreamBuffer()
+		buf := make([]byte, 64)
+		pay := func(seq uint64) []byte {
+			return []byte{byte(seq), byte(seq >> 8), byte(seq >> 16), byte(seq >> 24), 0x5a, 0xa5, 0x33, 0xcc}
+		}
+		for k := 0; k < pairs && len(rep.Violations) == 0; k++ {
+			for _, seq := range []uint64{uint64(2*k + 1), uint64(2 * k)} {
+				if _, err := sb.Write(&Frame{StreamID: 1, Seq: seq, Payload: pay(seq)}); err != nil {
+					rep.Violations = append(rep.Violations, vx.Violation{Clause: "reassembly-order-independent", Sig: vx.Sig(c.Job, "reassembly-order-independent"), Msg: fmt.Sprintf("frame %d of a long-lived stream (pairs arriving swapped, at most one frame parked) was refused: %v", seq, err)})
+					rep.Exhaustive = false
+					break
+				}
+				rep.Transitions++
+			}
+			if len(rep.Violations) > 0 {
+				break
+			}
+			n, _ := io.ReadFull(readerOf(sb), buf[:16])
+			want := append(pay(uint64(2*k)), pay(uint64(2*k+1))...)
+			if n != 16 || !bytes.Equal(buf[:16], want) {
+				rep.Violations = append(rep.Violations, vx.Violation{Clause: "reassembly-order-independent", Sig: vx.Sig(c.Job, "reassembly-order-independent"), Msg: fmt.Sprintf("after frames %d and %d the reader got %x, want %x", 2*k+1, 2*k, buf[:n], want)})
+				rep.Exhaustive = false
+			}
+			rep.Executions++
+		}
+		rep.States = rep.Executions
+		rep.Outcomes["pairs"] = rep.Executions
+		return rep
+	}})
+
 	// explicit-state BFS over (set of arrived frames, reader position); differential oracle: two
 	// histories reaching the same abstract state must reach the same implementation state
 	vx.Register(&vx.Scenario{Name: "sbuf.bfs", Prop: "C02", Run: func(c *vx.Ctx) *vx.Report {
@@ -390,6 +425,7 @@ func init() {
 				{Scenario: "sbuf.orders", Params: vx.P("n", "6"), Weight: 5},
 				{Scenario: "sbuf.orders", Params: vx.P("n", "4"), Weight: 1},
 				{Scenario: "sbuf.orders", Params: vx.P("n", "3", "plen", "20000"), Weight: 2},
+				{Scenario: "sbuf.long", Params: vx.P("pairs", "1500000"), Weight: 6},
 				{Scenario: "sbuf.orders", Params: vx.P("n", "3", "plen", "16639"), Weight: 2},
 				{Scenario: "sbuf.bfs", Params: vx.P("n", "7"), Weight: 3},
 				{Scenario: "sbuf.sched", Params: vx.P("n", "3"), Bound: -1, BudgetS: 100, Weight: 4},
@@ -403,6 +439,7 @@ func init() {
 			{Scenario: "sbuf.orders", Params: vx.P("n", "8"), Weight: 9},
 			{Scenario: "sbuf.orders", Params: vx.P("n", "7"), Weight: 5},
 			{Scenario: "sbuf.orders", Params: vx.P("n", "4", "plen", "20000"), Weight: 5},
+			{Scenario: "sbuf.long", Params: vx.P("pairs", "6000000"), Weight: 9},
 			{Scenario: "sbuf.orders", Params: vx.P("n", "4", "plen", "16638"), Weight: 5},
 			{Scenario: "sbuf.bfs", Params: vx.P("n", "10"), Weight: 5},
 			{Scenario: "sbuf.sched", Params: vx.P("n", "3"), Bound: -1, BudgetS: 900, Weight: 4},
@@ -414,3 +451,9 @@ func init() {
 }
 
 var _ = time.Second
+
+// readerOf adapts a streamBuffer to io.Reader.
+type sbReader struct{ sb *streamBuffer }
+
+func (r sbReader) Read(b []byte) (int, error) { return r.sb.Read(b) }
+func readerOf(sb *streamBuffer) io.Reader     { return sbReader{sb} }
